@@ -202,6 +202,16 @@ fn handlers(body: Vec<X>, f: &Fault, tier: Tier) -> Vec<(&'static str, X)> {
             )),
         ),
         (
+            // the argument of a catch block that does not accept the error names a live variable:
+            // the variable keeps its value
+            "typed-miss-shadowing-live-variable",
+            x(E::Try(
+                blk(body.clone()),
+                vec![catch_arm("sv", Some(other_ty), vec![print(s("wrong")), s("cv")]), catch_arm("sl", Some(other_ty), vec![print(s("wrong2")), s("cv")]), catch_arm("e", None, caught("untyped"))],
+                Some(blk(vec![print(s("finally"))])),
+            )),
+        ),
+        (
             "typed-miss-untyped",
             x(E::Try(
                 blk(body.clone()),
